@@ -703,8 +703,11 @@ def gen_text_kind(rng, tier):
         if rng.random() < 0.2:
             cmds.append(["repr", rng.choice(ids)])
     cmds.append(["obsfresh"])
+    # DICT_CUTOFF 2/3: a word's posting map switches from dict to IFBTree with 2-3 documents and stays a tree
+    # while they drop the word again (seeded change C06_B lost the word_count decrement on that path)
     case = c03.make_case(c03.PIPELINES[pl], backend, fam, "small",
-                         [(["index"] + c[1:]) if c[0] == "tindex" else c for c in cmds])
+                         [(["index"] + c[1:]) if c[0] == "tindex" else c for c in cmds],
+                         cutoff=rng.choice([None, 2, 2, 3]))
     case["cmds"] = cmds
     return case
 
